@@ -97,6 +97,7 @@ type runner struct {
 	intWG   sync.WaitGroup
 	ids     int
 	cancel  func()
+	envMu   sync.Mutex // toggles and handover-y calls are not concurrent with each other (their events have no call/return pair)
 }
 
 var (
@@ -355,6 +356,9 @@ func (r *runner) ask(f, n string, internal bool) {
 }
 
 func (r *runner) toggle(b bool) {
+	r.envMu.Lock()
+	defer r.envMu.Unlock()
+
 	id := r.newID()
 	r.emit(ev{"a": "TogC", "id": id, "b": b})
 	set := r.st.SetAllowConsensus(b)
@@ -371,6 +375,9 @@ func (r *runner) hold() {
 }
 
 func (r *runner) newY() bool {
+	r.envMu.Lock()
+	defer r.envMu.Unlock()
+
 	err := r.st.NewHandoverYBroker(yci)
 	r.emit(ev{"a": "NewY", "ok": err == nil})
 
@@ -378,6 +385,9 @@ func (r *runner) newY() bool {
 }
 
 func (r *runner) askY() bool {
+	r.envMu.Lock()
+	defer r.envMu.Unlock()
+
 	asked := false
 
 	for i := 0; i < 400 && !asked; i++ {
@@ -808,6 +818,11 @@ func free(out *h.Out, seed int64) (stuck bool, err error) {
 		r.quiesce()
 	case <-time.After(5 * time.Second):
 		stuck = true
+
+		if p := os.Getenv("VERIF_C09_DUMP"); p != "" {
+			b := make([]byte, 1<<22)
+			_ = os.WriteFile(p, b[:runtime.Stack(b, true)], 0o600)
+		}
 	}
 
 	if r.finish() {
